@@ -36,8 +36,8 @@ def e1_cases(tier, seed):
     bat = list(common.batch_scope(lvl))
     con3 = list(common.contend3(lvl))
     if tier != "thorough":
-        con = con[::3]
-        bat = bat[::2]
+        con = common.thin(con, 3)
+        bat = common.thin(bat, 2)
     out = common.add_algs(con + con3,
                           lambda c: common.shipped(c, lvl, "diag"))
     out += common.add_algs(bat, lambda c: common.batch_algs(c, lvl))
